@@ -1,4 +1,5 @@
 import ServiceModel.Proofs.Reachable
+import ServiceModel.Properties.C08
 /-!
 # C12 — Batch bookkeeping and module callbacks are exact (state part)
 -/
@@ -38,5 +39,61 @@ theorem no_callback_for_message_contexts (s : State) (c : CtxId) (x : Ctx) (hm :
     (completeBatch s c x).2 = [.ev "complete_batch" c] := by
   unfold completeBatch
   simp [hm]
+
+/-- Completion marks the batch completed (whatever the context) and emits the completion event; for a module
+    context exactly one callback precedes it, for a message context none. -/
+theorem completion_marks_completed (s : State) (c : CtxId) (x : Ctx) :
+    (completeBatch s c x).1.bstate = .completed ∧
+    (∃ cb, (completeBatch s c x).2 = cb ++ [.ev "complete_batch" c] ∧
+      ((x.mod ≠ "" → ∃ outs f, cb = [.respcb c outs f]) ∧ (x.mod = "" → cb = []))) := by
+  unfold completeBatch
+  dsimp only
+  refine ⟨rfl, _, rfl, ?_, ?_⟩
+  · intro hm
+    rw [if_pos hm]
+    cases Map.get s.ctxs c with
+    | none => exact ⟨_, _, rfl⟩
+    | some st => exact ⟨_, _, rfl⟩
+  · intro hm
+    rw [if_neg (by simp [hm])]
+
+/-- An accepted response completes the batch exactly when it brings the response count to the request count
+    ("as soon as all of its requests have been answered"), and otherwise leaves the batch state alone; in both
+    cases the response count goes up by exactly one and the request count is unchanged. -/
+theorem accepted_response_counts (s : State) (r : ReqId) (pv : Addr) (code : Nat) (out : OutKind) (x : Ctx)
+    (hx : Map.get s.ctxs r.ctx = some x) (hok : (respond s r pv code out).2.1 = .ok) :
+    ∃ x', Map.get (respond s r pv code out).1.ctxs r.ctx = some x' ∧ x'.respN = x.respN + 1 ∧ x'.reqN = x.reqN ∧
+      x'.batch = x.batch ∧
+      (x.respN + 1 = x.reqN → x'.bstate = .completed ∧ .ev "complete_batch" r.ctx ∈ (respond s r pv code out).2.2) ∧
+      (x.respN + 1 ≠ x.reqN → x'.bstate = x.bstate ∧ .ev "complete_batch" r.ctx ∉ (respond s r pv code out).2.2) := by
+  unfold respond at hok ⊢
+  cases hq : Map.get s.reqs r with
+  | none => rw [hq] at hok; simp [fail] at hok
+  | some q =>
+    rw [hq] at hok; dsimp only at hok ⊢
+    rw [hx] at hok ⊢; dsimp only at hok ⊢
+    split at hok; · simp [fail] at hok
+    split at hok; · simp [fail] at hok
+    rename_i h1 h2
+    rw [if_neg h1, if_neg h2]
+    cases hs : settle s r x.svc x.cons q pv out with
+    | error res =>
+      rw [hs] at hok; dsimp only at hok
+      exact absurd hok (C08.settle_error_not_ok hs)
+    | ok res =>
+      obtain ⟨s1, e1⟩ := res
+      dsimp only
+      have he1 : .ev "complete_batch" r.ctx ∉ e1 := by
+        intro hm
+        rcases settle_effects hs _ hm with ⟨_, _, _, he⟩ | ⟨_, _, _, he⟩ <;> cases he
+      by_cases hc : x.respN + 1 = x.reqN
+      · rw [if_pos hc]
+        refine ⟨{ x with respN := x.respN + 1, bstate := .completed }, ?_, rfl, rfl, rfl, fun _ => ⟨rfl, ?_⟩,
+          fun hne => absurd hc hne⟩
+        · simp [setCtx, completeBatch]
+        · simp [completeBatch]
+      · rw [if_neg hc]
+        refine ⟨{ x with respN := x.respN + 1 }, ?_, rfl, rfl, rfl, fun h => absurd h hc, fun _ => ⟨rfl, he1⟩⟩
+        simp [setCtx]
 
 end SM.C12
